@@ -152,12 +152,12 @@ Definition signature (k : kind) : list abity :=
   end.
 
 (** Fields handed to the remote bridge contract on delivery.  For the four message kinds this is
-    the argument list of contractABI.Pack("<method>", consensus, ...) in eth_txable.go (generated);
-    a batch is delivered by the relayer's submit_batch(consensus, token, (receivers, amounts),
-    nonce, deadline, relayer, gas_estimate) -- the list of the property statement, there is no
-    Go-side re-packing of it in the repository. *)
-Definition batch_delivered : list field :=
-  [FToken; FReceivers; FAmounts; FBatchNonce; FBatchTimeout; FRelayer; FEstimate].
+    the argument list of contractABI.Pack("<method>", consensus, ...) in eth_txable.go (generated,
+    each argument matched against the input at the same position of the compass ABI JSON shipped in
+    the repository); a batch is delivered by the relayer's submit_batch(consensus, ...) -- there is
+    no Go-side re-packing of it in the repository, so its list is GENERATED from the input list of
+    submit_batch in that ABI JSON (input / tuple-component names mapped to batch fields). *)
+Definition batch_delivered : list field := Gen.C05.submit_batch_delivered.
 Definition delivered_fields (k : kind) : list field :=
   match k with
   | KUpdateValset => Gen.C05.update_valset_delivered
@@ -167,6 +167,38 @@ Definition delivered_fields (k : kind) : list field :=
   | KBatch => batch_delivered
   | KUpload => []
   end.
+(** the same arguments with their tuple structure, in the ABI's order *)
+Definition delivered_slots (k : kind) : list slot :=
+  match k with
+  | KUpdateValset => Gen.C05.update_valset_delivered_slots
+  | KLogicCall => Gen.C05.logic_call_delivered_slots
+  | KDeploy => Gen.C05.deploy_contract_delivered_slots
+  | KHandover => Gen.C05.compass_update_batch_delivered_slots
+  | KBatch => Gen.C05.submit_batch_delivered_slots
+  | KUpload => []
+  end.
+(** the compass ABI's input types after the leading consensus argument, and the method id *)
+Definition abi_sig (k : kind) : list abity :=
+  match k with
+  | KUpdateValset => Gen.C05.update_valset_abi_sig
+  | KLogicCall => Gen.C05.logic_call_abi_sig
+  | KDeploy => Gen.C05.deploy_contract_abi_sig
+  | KHandover => Gen.C05.compass_update_batch_abi_sig
+  | KBatch => Gen.C05.submit_batch_abi_sig
+  | KUpload => []
+  end.
+Definition abi_selector (k : kind) : list Z :=
+  match k with
+  | KUpdateValset => Gen.C05.update_valset_abi_selector
+  | KLogicCall => Gen.C05.logic_call_abi_selector
+  | KDeploy => Gen.C05.deploy_contract_abi_selector
+  | KHandover => Gen.C05.compass_update_batch_abi_selector
+  | KBatch => Gen.C05.submit_batch_abi_selector
+  | KUpload => []
+  end.
+(** consensus = ((address[] validators, uint256[] powers, uint256 valset_id), (uint256 v, r, s)[]) *)
+Definition consensus_ty : abity :=
+  TTuple [TTuple [TArr TWord; TArr TWord; TWord]; TArr (TTuple [TWord; TWord; TWord])].
 
 (** Every action except the bridge-contract upload itself is authorised on the remote chain by
     presenting the signatures to the bridge contract. *)
@@ -218,6 +250,68 @@ Section WithKeccak.
 
   Definition keccak_collision : Prop := exists x y : list byte, x <> y /\ keccak x = keccak y.
 End WithKeccak.
+
+(** ---- what the contract is handed: the RAW values eth_txable.go packs ----
+    VerifyAgainstTX packs [m.Fees.RelayerFee] ... (no feesOrDefault: a message without fees is a
+    nil dereference there, nothing can be verified as delivered) and [msg.GetGasEstimate()] (no
+    default).  [raw_value it f = None]: the delivered call cannot be built from this item. *)
+Definition raw_fees (a : action) : option fees :=
+  match a with
+  | SubmitLogicCall _ _ fs _ _ | UploadUserSmartContract _ _ fs _ _ => fs
+  | _ => None
+  end.
+
+Definition raw_value (it : item) (f : field) : option abival :=
+  match f with
+  | FEstimate => Some (VWord (it_estimate it))
+  | FRelayerFee => option_map (fun x => VWord (f_relayer x)) (raw_fees (it_action it))
+  | FCommunityFee => option_map (fun x => VWord (f_community x)) (raw_fees (it_action it))
+  | FSecurityFee => option_map (fun x => VWord (f_security x)) (raw_fees (it_action it))
+  | FCheckpoint => None
+  | _ => Some (field_value 0 it f)
+  end.
+
+Fixpoint raw_slot_val (it : item) (s : slot) : option abival :=
+  match s with
+  | SF f => raw_value it f
+  | ST l =>
+      option_map VTuple
+        ((fix go (l : list slot) : option (list abival) :=
+            match l with
+            | [] => Some []
+            | x :: r => match raw_slot_val it x, go r with
+                        | Some v, Some vs => Some (v :: vs)
+                        | _, _ => None
+                        end
+            end) l)
+  end.
+Fixpoint raw_slot_vals (it : item) (l : list slot) : option (list abival) :=
+  match l with
+  | [] => Some []
+  | x :: r => match raw_slot_val it x, raw_slot_vals it r with
+              | Some v, Some vs => Some (v :: vs)
+              | _, _ => None
+              end
+  end.
+
+(** the transaction input VerifyAgainstTX accepts (a batch: what submit_batch is called with),
+    [consensus] being the (current valset, signatures) argument *)
+Definition delivered_calldata (consensus : abival) (it : item) : option (list byte) :=
+  match raw_slot_vals it (delivered_slots (kind_of it)) with
+  | Some vs => Some (bytes_of_Zs (abi_selector (kind_of it)) ++ enc_args (consensus :: vs))
+  | None => None
+  end.
+
+(** An item is handed out for relaying only with an elected estimate (filters.HasGasEstimate in
+    GetMessagesForRelaying, RequireGasEstimation at every enqueue site of a bridge action; the
+    batch query skips GasEstimate < 1), and fee-paying actions get their fees in the same cache
+    context as the estimate (Gen.C05.relay_filter_has_gas_estimate & co.). *)
+Definition relayable (it : item) : Prop :=
+  it_estimate it <> 0 /\
+  match it_action it with
+  | SubmitLogicCall _ _ fs _ _ | UploadUserSmartContract _ _ fs _ _ => fs <> None
+  | _ => True
+  end.
 
 (** ---- well-formedness: the ranges of the Go types ---- *)
 Definition u64 (z : Z) : Prop := 0 <= z < two64.
